@@ -33,15 +33,22 @@ fn main() {
         }
         "exec" => {
             util::silence_panics();
-            let stdin = std::io::stdin();
-            let out = std::io::stdout();
-            let mut w = std::io::BufWriter::with_capacity(1 << 20, out.lock());
-            for line in stdin.lock().lines() {
-                let line = line.unwrap();
-                let ans = ops::run_op(&line);
-                writeln!(w, "{}", ans).unwrap();
-            }
-            w.flush().unwrap();
+            // a roomy stack: stack-depth behaviour is C08's business and is observed in child processes
+            let th = std::thread::Builder::new()
+                .stack_size(2 << 30)
+                .spawn(|| {
+                    let stdin = std::io::stdin();
+                    let out = std::io::stdout();
+                    let mut w = std::io::BufWriter::with_capacity(1 << 20, out.lock());
+                    for line in stdin.lock().lines() {
+                        let line = line.unwrap();
+                        let ans = ops::run_op(&line);
+                        writeln!(w, "{}", ans).unwrap();
+                    }
+                    w.flush().unwrap();
+                })
+                .unwrap();
+            th.join().unwrap();
         }
         other => {
             if !ops::special(other, &args[2..]) {
